@@ -554,7 +554,7 @@ func (c *Ctx) evalPredicate(g *ssa.Function, wIdx, oIdx int, mode string) string
 			callee := call.Call.StaticCallee()
 			if callee.Pkg != nil && callee.Pkg.Pkg.Path() == "reflect" {
 				if k := keyOf(call.Call.Args[0]); k != "" {
-					switch callee.Name() {
+					switch publicName(callee) {
 					case "Kind":
 						return "kind:" + k
 					case "Interface":
@@ -636,7 +636,7 @@ func (c *Ctx) evalPredicate(g *ssa.Function, wIdx, oIdx int, mode string) string
 				if x.Call.Method.Name() == "IsMap" && term(x.Call.Value) == "vn" {
 					return s["IM"], true
 				}
-			} else if callee := x.Call.StaticCallee(); callee != nil && callee.Pkg != nil && callee.Pkg.Pkg.Path() == "reflect" && callee.Name() == "IsValid" && len(x.Call.Args) == 1 {
+			} else if callee := x.Call.StaticCallee(); callee != nil && callee.Pkg != nil && callee.Pkg.Pkg.Path() == "reflect" && publicName(callee) == "IsValid" && len(x.Call.Args) == 1 {
 				if k := keyOf(x.Call.Args[0]); k != "" {
 					return s["V"+k], true
 				}
@@ -776,7 +776,7 @@ func (c *Ctx) isMayBeMemberFn(k *ssa.Function) (selIdx, nameIdx int, ok bool) {
 				continue
 			}
 			sc, isCall := pr[0].(*ssa.Call)
-			if !isCall || sc.Call.StaticCallee() == nil || sc.Call.StaticCallee().Name() != "String" || len(sc.Call.Args) != 1 {
+			if !isCall || sc.Call.StaticCallee() == nil || publicName(sc.Call.StaticCallee()) != "String" || len(sc.Call.Args) != 1 {
 				continue
 			}
 			ex, isEx := sc.Call.Args[0].(*ssa.Extract)
